@@ -3,6 +3,7 @@ package bpv7
 import (
 	"bytes"
 	"encoding/json"
+	"fmt"
 	"testing"
 
 	vk "github.com/dtn7/dtn7-go/pkg/verifkit"
@@ -17,18 +18,28 @@ var c04Targets = map[string]vk.Target{
 		if err != nil {
 			return "rejected"
 		}
+		// what the node does with an accepted bundle before any routing decision: log it, ask for its ID,
+		// check its lifetime, render it for REST/WebSocket clients
+		_ = b.String()
+		_ = b.ID().String()
+		_ = b.IsLifetimeExceeded()
+		_, _ = b.MarshalJSON()
 		if b.IsAdministrativeRecord() {
-			if _, err := b.AdministrativeRecord(); err != nil {
+			ar, err := b.AdministrativeRecord()
+			if err != nil {
 				return "accepted, record rejected"
 			}
+			c04UseRecord(ar)
 			return "accepted with record"
 		}
 		return "accepted"
 	},
 	"adminrecord": func(in []byte) string {
-		if _, err := NewAdministrativeRecordFromCbor(in); err != nil {
+		ar, err := NewAdministrativeRecordFromCbor(in)
+		if err != nil {
 			return "rejected"
 		}
+		c04UseRecord(ar)
 		return "accepted"
 	},
 	"eid": func(in []byte) string {
@@ -49,6 +60,18 @@ var c04Targets = map[string]vk.Target{
 	},
 }
 
+// c04UseRecord does with a decoded administrative record what routing.Core.inspectStatusReport does.
+func c04UseRecord(ar AdministrativeRecord) {
+	_ = fmt.Sprint(ar)
+	if sr, ok := ar.(*StatusReport); ok {
+		for _, sip := range sr.StatusInformations() {
+			_ = sip.String()
+		}
+		_ = sr.RefBundle.String()
+		_ = sr.ReportReason.String()
+	}
+}
+
 func TestVerifChild(t *testing.T) {
 	vfRegisterCustom()
 	vk.ChildMain(t, c04Targets)
@@ -56,13 +79,19 @@ func TestVerifChild(t *testing.T) {
 
 // vfStatusReportCbor builds an administrative record with the independent encoder.
 func vfStatusReportCbor(fragment bool, withTime bool) []byte {
+	return vfStatusReportCborN(fragment, withTime, 4)
+}
+
+// vfStatusReportCborN: the same with nItems status items (a well-formed array of another length than the
+// four the specification defines: the decoder takes the count from the wire).
+func vfStatusReportCborN(fragment bool, withTime bool, nItems int) []byte {
 	var e vk.Enc
 	n := uint64(4)
 	if fragment {
 		n = 6
 	}
-	e.Arr(2).Uint(1).Arr(n).Arr(4)
-	for i := 0; i < 4; i++ {
+	e.Arr(2).Uint(1).Arr(n).Arr(uint64(nItems))
+	for i := 0; i < nItems; i++ {
 		if i == 1 {
 			if withTime {
 				e.Arr(2).Bool(true).Uint(700000000000)
@@ -142,7 +171,7 @@ func TestVerifC04Bundle(t *testing.T) {
 		}
 	}
 	vk.RunC04(t, vk.C04Spec{Target: "bundle", Unit: vk.Unit{Property: "C04", Name: "c04.bundle",
-		Rule: "ParseBundle (all block types registered) + AdministrativeRecord() on accepted record bundles, run in disposable child processes (address space limited to 6 GiB) on: valid encodings of 19 bundles with EVERY CBOR head (length, count or value; outer items and items inside block data) set to each of 0,1,23,24,2^16,2^31-1,2^31,2^32-1,2^62,2^63,2^64-1, every truncation, sampled pairs of such edits, hostile constants; violation = process death, escaping panic, no return in 20 s, or TotalAlloc delta > 4 MiB + 256 x len(input); non-trivial = every distinct input; distinct by input hash"}}, cases)
+		Rule: "ParseBundle (all block types registered) + what the node does with an accepted bundle (String, ID, IsLifetimeExceeded, MarshalJSON, AdministrativeRecord() and its accessors on record bundles), run in disposable child processes (address space limited to 6 GiB) on: valid encodings of 19 bundles with EVERY CBOR head (length, count or value; outer items and items inside block data) set to each of 0,1,23,24,2^16,2^31-1,2^31,2^32-1,2^62,2^63,2^64-1, every truncation, sampled pairs of such edits, hostile constants; violation = process death, escaping panic, no return in 20 s, or TotalAlloc delta > 4 MiB + 256 x len(input); non-trivial = every distinct input; distinct by input hash"}}, cases)
 }
 
 func TestVerifC04AdminRecord(t *testing.T) {
@@ -155,9 +184,15 @@ func TestVerifC04AdminRecord(t *testing.T) {
 			seeds = append(seeds, vfStatusReportCbor(fr, tm))
 		}
 	}
+	// status-item arrays of every length 0..9 (well-formed; only 4 is what the specification defines)
+	for n := 0; n <= 9; n++ {
+		if n != 4 {
+			seeds = append(seeds, vfStatusReportCborN(n%2 == 1, n%3 == 0, n))
+		}
+	}
 	cases := vk.C04Inputs(seeds, true)
 	vk.RunC04(t, vk.C04Spec{Target: "adminrecord", Unit: vk.Unit{Property: "C04", Name: "c04.adminrecord",
-		Rule: "NewAdministrativeRecordFromCbor on valid status reports (fragment / whole, with / without time) with every CBOR head at every boundary value and every truncation, in child processes; violation as c04.bundle; distinct by input hash"}}, cases)
+		Rule: "NewAdministrativeRecordFromCbor, followed by what routing.Core.inspectStatusReport does with the record (StatusInformations(), String()), on valid status reports (fragment / whole, with / without time, status-item arrays of every length 0..9) with every CBOR head at every boundary value and every truncation, in child processes; violation as c04.bundle; distinct by input hash"}}, cases)
 }
 
 func TestVerifC04EID(t *testing.T) {
